@@ -64,6 +64,12 @@ def decorated(x):
     v = x + 100
     return v
 
+@deco
+@deco
+def decorated2(x):
+    v = x + 200
+    return v
+
 def helper(x):
     v = x + 5
     return v
@@ -97,6 +103,7 @@ class Universe:
             ("K.Inner.m", M.K.Inner.m, M.K.Inner.m, lambda x: inner.m(x), lambda x: x - 2),
             ("nested", M.nested, M.nested, lambda x: M.nested(x), lambda x: x * 10),
             ("decorated", M.decorated, M.decorated.__wrapped__, lambda x: M.decorated(x), lambda x: x + 100),
+            ("decorated2", M.decorated2, M.decorated2.__wrapped__.__wrapped__, lambda x: M.decorated2(x), lambda x: x + 200),
             # the function that DEFINES another one (whose live instance keeps its own reference)
             ("outer", M.outer, M.outer, lambda x: (M.outer(), None)[1], lambda x: 7),
             ("helper", M.helper, M.helper, lambda x: M.helper(x), lambda x: x + 5),
@@ -105,7 +112,7 @@ class Universe:
         ]
         self.by_name = {"m": "m > v", "other": "other > v", "K.m": "K.m > v", "K.other": "K.other > v",
                         "K.Inner.deep": "K.Inner.deep > v", "K.Inner.m": "K.Inner.m > v",
-                        "nested": "nested > v", "decorated": "decorated > v", "outer": "outer > v",
+                        "nested": "nested > v", "decorated": "decorated > v", "decorated2": "decorated2 > v", "outer": "outer > v",
                         "helper": "helper > v", "driver": "driver > helper > v"}
 
     def drop(self):
@@ -352,7 +359,7 @@ def run(chk):
     chk.cov["rule"] = (
         "a generated module on disk with a module-level function, a second one, methods of a class and of a "
         "nested class that SHARE NAMES with the module-level functions, a function defined inside a function "
-        "(one live instance), the function that defines it, and a functools.wraps-decorated function; histories of 4-11 operations: activate "
+        "(one live instance), the function that defines it, and functools.wraps-decorated functions (one and two levels); histories of 4-11 operations: activate "
         "a probe by name or by reference (optionally capturing a second variable), deactivate in any order, "
         "call, look a non-existent reference up, resolve; after EVERY step the reference of every function is resolved. non-trivial = at least "
         "one activation and four steps")
